@@ -142,6 +142,8 @@ func Preview(sql string) int {
 		return StmtKill
 	case "load":
 		return StmtLoad
+	case "call":
+		return StmtCallProc
 	}
 
 	return StmtUnknown
